@@ -37,7 +37,7 @@ programs and all schedules.
 namespace Ecal.Mutex
 
 inductive Outcome where
-  | normal | error | ret | brk | cont
+  | normal | error | ret | brk | cont | panic
   deriving DecidableEq, Repr
 
 structure Frame where
@@ -232,5 +232,57 @@ structure Inv (s : State) : Prop where
   wf : ∀ x, ThreadWf x (s.thr x)
   ctr : ∀ a, (s.mtx a).ctr = (s.mtx a).incs
   rmwv : ∀ x a v, (s.thr x).rmw = some (a, v) → v = (s.mtx a).ctr
+
+/-! ## The release policy and the order of the protocol steps as parameters
+
+`step` is the code as it is. The two definitions below are *variant protocols*: what the same
+code would do with the release not deferred, or with two protocol steps swapped. They exist for
+the negative witnesses in `Ecal.Props.C12` (the properties fail for them), i.e. to show which
+facts about the source the theorems depend on. -/
+
+/-- `deferred = true`: the release is a deferred call — it runs whatever the outcome of the body
+    is, a Go panic included (`stepD true = step`). `deferred = false`: the release is written
+    after the body — it runs only when the body ends normally; on every other outcome `Eval` is
+    left with the frame gone and nothing released. -/
+def stepD (deferred : Bool) (s : State) (e : Event) : Option State :=
+  match e with
+  | .bodyEnd t k =>
+    if deferred = true ∨ k = .normal then step s e
+    else
+      match (s.thr t).pc, (s.thr t).stack with
+      | .run, _ :: rest => some (setThr s t { s.thr t with stack := rest })
+      | _, _ => none
+  | e => step s e
+
+theorem stepD_true (s : State) (e : Event) : stepD true s e = step s e := by
+  cases e <;> simp [stepD]
+
+inductive Variant where
+  | unlockBeforeReset   -- deferred release: mutex.Unlock() first, MutexeOwners[name] = 0 afterwards
+  | ownerBeforeLock     -- MutexeOwners[name] = tid before mutex.Lock()
+
+def stepV (v : Variant) (s : State) (e : Event) : Option State :=
+  match v, e with
+  | .unlockBeforeReset, .unlock t =>
+    match (s.thr t).pc with
+    | .releasing a =>
+      some (setThr (setMtx s a { s.mtx a with locked := false, holder := none }) t
+        { s.thr t with pc := .unlocking a })
+    | _ => none
+  | .unlockBeforeReset, .resetOwner t =>
+    match (s.thr t).pc with
+    | .unlocking a => some (setThr (setMtx s a { s.mtx a with owner := 0 }) t { s.thr t with pc := .run })
+    | _ => none
+  | .ownerBeforeLock, .setOwner t =>
+    match (s.thr t).pc with
+    | .wantLock a => some (setMtx s a { s.mtx a with owner := t })
+    | _ => step s (.setOwner t)
+  | _, e => step s e
+
+def runWith (f : State → Event → Option State) (s : State) : List Event → Option State
+  | [] => some s
+  | e :: es => match f s e with
+    | some s' => runWith f s' es
+    | none => none
 
 end Ecal.Mutex
